@@ -238,10 +238,11 @@ func c16Variants() []c16Variant {
 
 func c16(ctx *Ctx) {
 	schemas := c16Schemas(ctx.Level)
-	bases := []OptSet{{"default+extra", func(c *genlab.Cfg) { c.ExtraImports = true }}}
+	bases := []OptSet{{"default+extra", func(c *genlab.Cfg) { c.ExtraImports = true }},
+		{"sized+caps+extra", func(c *genlab.Cfg) { c.ExtraImports = true; c.MinSizedInts = true; c.Caps = []string{"Api"} }}}
 	if ctx.Level >= 1 {
 		bases = append(bases, OptSet{"sized+extra", func(c *genlab.Cfg) { c.ExtraImports = true; c.MinSizedInts = true }},
-			OptSet{"caps+extra", func(c *genlab.Cfg) { c.ExtraImports = true; c.Caps = []string{"Api"} }})
+			OptSet{"tags2+extra", func(c *genlab.Cfg) { c.ExtraImports = true; c.Tags = []string{"json", "yaml"} }})
 	}
 	variants := c16Variants()
 	type jobKey struct {
